@@ -27,43 +27,66 @@ import (
 type tuner struct {
 	mu   sync.Mutex
 	base float64            // ns: measured duration of a small uncancelled call
-	thr  map[string]float64 // ns per class of call
+	thr  map[string]float64 // ns per class of call; for the sized classes (importN, removeN): ns per key
 }
 
 var tun = &tuner{base: 300_000, thr: map[string]float64{}}
 
-func opClass(o op) string {
+func opSize(o op) int {
 	switch o.kind {
 	case "import":
-		return "import" + strconv.Itoa(min(len(o.items), 4))
+		return len(o.items)
 	case "remove":
-		return "remove" + strconv.Itoa(min(len(o.keys), 4))
+		return len(o.keys)
+	}
+	return 1
+}
+
+func opClass(o op) string {
+	if n := opSize(o); o.kind == "import" || o.kind == "remove" {
+		if n > 4 {
+			return o.kind + "N"
+		}
+		return o.kind + strconv.Itoa(n)
 	}
 	return o.kind
 }
 
-func (t *tuner) get(class string) float64 {
+// threshold: the current estimate (ns after the start of the call) of the moment the call stops being cancellable
+func (t *tuner) threshold(o op) float64 {
 	t.mu.Lock()
 	defer t.mu.Unlock()
+	class := opClass(o)
 	v, ok := t.thr[class]
 	if !ok {
 		v = t.base * 0.6
+		if strings.HasSuffix(class, "N") {
+			v = t.base / 20 // per key; replaced by the calibration of the big calls
+		}
 		t.thr[class] = v
+	}
+	if strings.HasSuffix(class, "N") {
+		return t.base*0.6 + v*float64(opSize(o))
 	}
 	return v
 }
 
-func (t *tuner) feedback(class string, acked bool) {
+// feedback: the call returned in time (threshold was too late: earlier next time) or was cut short (later)
+func (t *tuner) feedback(o op, inTime bool) {
 	t.mu.Lock()
 	defer t.mu.Unlock()
-	v := t.thr[class]
-	if acked {
-		v *= 0.97
-	} else {
-		v *= 1.03
+	class := opClass(o)
+	v, step := t.thr[class], 0.03
+	if strings.HasSuffix(class, "N") {
+		step = 0.08 // few calls per run
 	}
-	if v < 5_000 {
-		v = 5_000
+	if inTime {
+		v *= 1 - step
+	} else {
+		v *= 1 + step
+	}
+	if v < 1_000 {
+		v = 1_000
 	}
 	if v > 50_000_000 {
 		v = 50_000_000
@@ -105,7 +128,7 @@ func (t *tuner) load(s string) {
 // ctxFor chooses how the context of one call ends. mode: none (never), pre (before the call), wide (uniform
 // over 0..2.5 thresholds), edge (around the threshold); -t = deadline, -c = explicit cancel from a timer.
 func ctxFor(rng *hlib.Rng, o op) (mode string, ctx context.Context, cancel context.CancelFunc, tune bool) {
-	thr := tun.get(opClass(o))
+	thr := tun.threshold(o)
 	var d time.Duration
 	switch x := rng.Intn(100); {
 	case x < 8:
@@ -149,7 +172,7 @@ func listing(kv interface {
 	return strings.Join(xs, ",")
 }
 
-func dlCase(root string, id int, seed uint64, nops int) (out caseOut) {
+func dlCase(root string, id int, seed uint64, nops int, handoff bool) (out caseOut) {
 	rng := hlib.NewRng(seed ^ 0xd1d1)
 	dirA := filepath.Join(root, fmt.Sprintf("dl%d", id))
 	dirB := filepath.Join(root, fmt.Sprintf("dl%dref", id))
@@ -157,8 +180,11 @@ func dlCase(root string, id int, seed uint64, nops int) (out caseOut) {
 	os.MkdirAll(dirB, 0o755)
 	defer os.RemoveAll(dirA)
 	defer os.RemoveAll(dirB)
-	out.lines = append(out.lines, line{raw: true, lhs: fmt.Sprintf("# case deadline %d seed %d", id, seed)}, line{raw: true, lhs: "reset"})
+	out.lines = append(out.lines, line{raw: true, lhs: fmt.Sprintf("# case deadline %d seed %d handoff %v", id, seed, handoff)}, line{raw: true, lhs: "reset"})
 	plan := genPlan(seed, nops, false)
+	if handoff {
+		plan = genHandoffPlan(seed, nops)
+	}
 	var ks [][]byte
 	for _, o := range plan {
 		ks = append(ks, o.allKeys()...)
@@ -198,10 +224,11 @@ func dlCase(root string, id int, seed uint64, nops int) (out caseOut) {
 		cancel()
 		after := dump(rawA)
 		if tune && res != "panic" {
-			tun.feedback(opClass(o), res != "error") // returned in time (whatever the result) / cut short
+			tun.feedback(o, res != "error") // returned in time (whatever the result) / cut short
 		}
 		out.emit("dl "+mode+" "+o.tokens(0), res)
 		out.count("dl-mode:" + strings.SplitN(mode, "-", 2)[0])
+		out.count("dl-call:" + opClass(o))
 		out.count("dl-result:" + res)
 		ref := ""
 		if res != "error" || after != last {
@@ -237,4 +264,39 @@ func dlCase(root string, id int, seed uint64, nops int) (out caseOut) {
 	}
 	out.key = fmt.Sprintf("dl/%d/%d/%d", seed, nAck, nFail)
 	return
+}
+
+// genHandoffPlan: what key transfer does to a store, round after round: one Import of a range of m keys
+// (20..300), a few small calls on them, one RemoveKeys of the whole range.
+func genHandoffPlan(seed uint64, nops int) []op {
+	rng := hlib.NewRng(seed ^ 0x4a4d)
+	var plan []op
+	for len(plan) < nops {
+		m := 20 + rng.Intn(281)
+		imp := op{kind: "import"}
+		rm := op{kind: "remove"}
+		for _, j := range rngPerm(rng, 400)[:m] {
+			kk := []byte(fmt.Sprintf("b%03d", j))
+			it := genItem(rng, kk, false)
+			if it.lease > 1000 { // independent of the wall clock
+				it.lease = 4_000_000_000_000_000_000 + uint64(rng.Intn(1000))
+			}
+			imp.items = append(imp.items, it)
+			rm.keys = append(rm.keys, kk)
+		}
+		plan = append(plan, imp)
+		for n := rng.Intn(3); n > 0; n-- {
+			k := hlib.Pick(rng, rm.keys)
+			switch rng.Intn(3) {
+			case 0:
+				plan = append(plan, op{kind: "put", k: k, v: rng.Bytes(1 + rng.Intn(3))})
+			case 1:
+				plan = append(plan, op{kind: "pappend", k: k, v: hlib.Pick(rng, children)})
+			default:
+				plan = append(plan, op{kind: "del", k: k})
+			}
+		}
+		plan = append(plan, rm)
+	}
+	return plan
 }
